@@ -784,3 +784,39 @@ mutant("rsf-this-bound-unconditionally",
        [(E, "    if let Some(this) = this {\n        // TODO Consider how to avoid creating a new AST variable node here.",
             "    {\n        let this = this.unwrap_or(Value::Null);\n        // TODO Consider how to avoid creating a new AST variable node here.")],
        [("C14", "R14.3")], base=RSF, note="bindings helper + `this` is bound (to null) for plain calls too")
+
+# ---- round 7 ---------------------------------------------------------------------
+RTC = "refactors/t-clippy/patch.diff"
+mutant("rtc-is-some-and-polarity-dropped",
+       [(L, "            if last_token.is_some_and(|t| !suppresses_stmt_end(&t)) {", "            if last_token.is_some_and(|t| suppresses_stmt_end(&t)) {")],
+       [("C09", "R09.1")], base=RTC, note="idiom sweep + the continuation test is inverted inside the is_some_and closure")
+mutant("rtc-comma-no-longer-continues",
+       [(L, "        Token::Comma |\n        Token::Div |", "        Token::Div |")],
+       [("C09", "R09.1")], base=RTC, note="idiom sweep + `,` dropped from the continuation table behind is_some_and")
+mutant("rtc-mod-zero-gives-zero",
+       [(E, "                            BinaryOp::Mod if *b == 0 => None,", "                            BinaryOp::Mod if *b == 0 => Some(0),")],
+       [("C06", "R06.1")], base=RTC, note="idiom sweep + `% 0` answers 0 in the merged Option form")
+mutant("rtc-refne-not-negated",
+       [(E, "                .map(|v| Value::Bool(if negates(op) { !v } else { v }))", "                .map(|v| Value::Bool(v))")],
+       [("C10", "R10.3")], base=RTC, note="idiom sweep + `!==` answers like `===`")
+RTL = "refactors/t-lexerloop/patch.diff"
+mutant("rtl-start-of-input-emits",
+       [(L, "    let Some(t) = last_token else {\n        return false;\n    };", "    let Some(t) = last_token else {\n        return true;\n    };")],
+       [("C09", "R09.1")], base=RTL, note="lexer loop refactor + a terminator at the start of the input is kept")
+RTM = "refactors/t-mainio/patch.diff"
+mutant("rtm-script-failure-exits-1",
+       [(MAIN, "            Failure::ScriptFailed{..} => EXIT_SCRIPT_FAILED,", "            Failure::ScriptFailed{..} => 1,")],
+       [("C17", "L5")], also=[("C03", "R03.4")], base=RTM, note="Failure enum + a failing script exits with status 1")
+RTO = "refactors/t-option/patch.diff"
+mutant("rto-minimum-off-by-one",
+       [(E, "                        if num_fixed > got {", "                        if num_fixed + 1 > got {")],
+       [("C13", "R13.1")], base=RTO, note="optional rest parameter + a collecting function demands one argument too many")
+RTX = "refactors/t-ctx/patch.diff"
+mutant("rtx-nested-pattern-gets-fresh-binder",
+       [(B, "    fn bind_list(", "    fn fresh(&mut self) -> Binder<'_, 'c> {\n        Binder::new(self.context, self.scopes, self.bind_type)\n    }\n\n    fn bind_list("),
+        (B, "            self.bind_next(lhs, rhs, None)", "            self.fresh().bind_next(lhs, rhs, None)")],
+       [("C13", "R13.2")], base=RTX, note="Binder struct + a method of the binder creates a second binder (fresh name set) for nested patterns")
+RTP = "refactors/t-callphases/patch.diff"
+mutant("rtp-body-runs-on-caller-chain",
+       [(E, "                run_func_body(context, closure, bindings, &stmts)", "                run_func_body(context, { let _ = closure; scopes.clone() }, bindings, &stmts)")],
+       [("C04", "R04.3")], base=RTP, note="call phases + the body runs on (a clone of) the caller's chain")
